@@ -37,10 +37,10 @@ Definition authorized_now (i : invocation) : Prop :=
 Definition full_faithful (r : full) : Prop :=
   (f_authn r = true -> f_auth_real r = true) /\ (f_enc r = true -> f_enc_real r = true).
 
-(* a cache entry installed by the application: marked Authenticated only if it
-   really was, and not carrying an empty AES key *)
+(* a cache entry (e.g. one installed by the application): marked Authenticated
+   only if the session really was established by an authentication *)
 Definition entry_faithful (e : sentry) : Prop :=
-  (e_authn e = true -> e_auth_real e = true) /\ e_key e <> KAesEmpty.
+  e_authn e = true -> e_auth_real e = true.
 
 Definition cache_faithful (k : cache) : Prop := Forall (fun se => entry_faithful (snd se)) k.
 
